@@ -2,6 +2,7 @@
     strategy imply.  Statements over ALL lists of recorded task refs, parallelism shapes
     (as index hash lists), strategies and maxAttempts. *)
 From Furiko Require Import Job.Core Proofs.JobP.
+From Furiko Require Job.Sync Job.World Proofs.HistoryP Proofs.SuccessP.
 
 (** Succeeded only if the strategy is satisfied by tasks that really have result
     Succeeded: AllSuccessful - every index has one; AnySuccessful - some index has. *)
@@ -89,4 +90,35 @@ Definition ex_job := mkJob ["aaaaaa"; "bbbbbb"] true AnySuccessful 2 0 false fal
   4 0 None (CQueueing QNone) PhQueued SQueued.
 Example c10_nonvacuous :
   get_condition 100 ex_job = CFinished JSuccess (Some 30) (Some 26) (Some 27).
+Proof. vm_compute. reflexivity. Qed.
+
+
+(** * over histories: "Succeeded" is real
+    For every history of the one-Job world (passes against lagging or emptied caches, kubelet
+    steps, foreign Pods, kill / delete, injected failures and conflicts): a task recorded in
+    the Job's status in the API with result Succeeded - in its status or in its tombstone - is
+    the name of a Pod that at some moment of that history was in the API in phase Succeeded
+    and not OOM-killed (or was recorded so in the Job the history started from).  With
+    [c10_success_sound] above: a Job is reported Succeeded only on the strength of Pods that
+    really succeeded.  (The Pod is found by name: a foreign Pod on a recorded name counts,
+    finding F16.) *)
+Theorem c10_recorded_success_is_real :
+  forall cfg j0 now ops a r,
+    Sync.api_job (HistoryP.jrun_world cfg (World.init_jworld j0 now) ops) = Some a -> In r (j_tasks a) ->
+    (st_result (tr_status r) = RSucceeded \/ exists d, tr_deleted r = Some d /\ st_result d = RSucceeded) ->
+    SuccessP.really_succeeded cfg j0 now ops (tr_name r).
+Proof. exact SuccessP.recorded_success_is_real. Qed.
+Print Assumptions c10_recorded_success_is_real.
+
+Definition ex_hist_job : job :=
+  mkJob ["aaaaaa"%string] false AllSuccessful 1 0 false false None false None None false true None (Some 10)
+        [] 0 0 None (CWaiting WPendingCreation) PhStarting SWaiting.
+Example c10_history_nonvacuous :
+  let cfg := Sync.mkCfg (Some 900) (Some 900) (Some 3600) in
+  let ops := [World.JSync; World.JAdvanceJob 5; World.JAdvancePods 5;
+              World.JKubelet "j-aaaaaa-0" World.KSchedule; World.JKubelet "j-aaaaaa-0" World.KRun;
+              World.JKubelet "j-aaaaaa-0" World.KSucceed; World.JAdvancePods 5; World.JSync] in
+  option_map (fun a => (map (fun r => (tr_name r, st_result (tr_status r))) (j_tasks a), j_phase a))
+             (Sync.api_job (HistoryP.jrun_world cfg (World.init_jworld ex_hist_job 100) ops))
+  = Some ([("j-aaaaaa-0"%string, RSucceeded)], PhSucceeded).
 Proof. vm_compute. reflexivity. Qed.
